@@ -2,7 +2,7 @@
    Protocol model Sched.v (mutex with FIFO hand-over, read epoch, commit, release) under an
    arbitrary schedule; every model step is one or more storage operations of the implementation. *)
 From Coq Require Import List Bool NArith.
-From Akd Require Import Sched.
+From Akd Require Import Sched SchedState.
 Import ListNotations.
 Open Scope N_scope.
 
@@ -19,3 +19,28 @@ Print Assumptions C12_publishes_serialize.
 Theorem C12_without_mutex_refuted : results (run false 2 [0; 1; 0; 1; 0; 1]%nat) 2 = [3; 3].
 Proof. exact without_mutex_refuted. Qed.
 Print Assumptions C12_without_mutex_refuted.
+
+(* ---- what the publishes do to the directory (SchedState.v): the protocol model extended with the
+   directory's state; a publish computes its commit from the state it read after taking the mutex;
+   [apply d i] (the state after task i's batch is applied to d) is ANY function *)
+
+(* the extension leaves the protocol as it is: its projection is the run of the model that is tied to the code *)
+Theorem C12_state_extension_projects : forall (St : Type) (apply : St -> nat -> St) locking e0 d0 sched,
+  fst (run_st St apply locking e0 d0 sched) = run locking e0 sched.
+Proof. exact run_st_projects. Qed.
+Print Assumptions C12_state_extension_projects.
+
+(* for every schedule the state is the committed batches applied one after another, in epoch order *)
+Theorem C12_final_state_is_serial_application : forall (St : Type) (apply : St -> nat -> St) e0 d0 sched,
+  let x := run_st St apply true e0 d0 sched in
+  fst (snd x) = fold_left apply (committed_tasks (fst (fst x))) d0 /\
+  log_ok e0 (w_log (fst (fst x))) (w_epoch (fst (fst x))).
+Proof. exact publishes_apply_in_epoch_order. Qed.
+Print Assumptions C12_final_state_is_serial_application.
+
+(* without the mutex an update is lost *)
+Theorem C12_without_mutex_update_lost :
+  let x := run_st (list nat) (fun d i => d ++ [i]%nat) false 2 [] [0; 1; 0; 1; 0; 1]%nat in
+  committed_tasks (fst (fst x)) = [0; 1]%nat /\ fst (snd x) = [1]%nat.
+Proof. exact without_mutex_update_lost. Qed.
+Print Assumptions C12_without_mutex_update_lost.
